@@ -2,6 +2,7 @@
 mod c01;
 mod c02;
 mod c03;
+mod c04b;
 mod c05;
 mod c09;
 mod c12;
